@@ -4,7 +4,8 @@ use quil_rs::expression::Expression;
 use quil_rs::instruction::{
     AttributeValue, CalibrationDefinition, CalibrationIdentifier, CircuitDefinition, Delay, FrameAttributes,
     FrameDefinition, FrameIdentifier, Include, Instruction, MeasureCalibrationDefinition, MeasureCalibrationIdentifier,
-    Pragma, Pulse, Qubit, WaveformInvocation,
+    Capture, MemoryReference, Pragma, PragmaArgument, Pulse, Qubit, RawCapture, SetFrequency, ShiftPhase, SwapPhases,
+    WaveformInvocation,
 };
 use quil_rs::quil::Quil;
 use quil_rs::verif_hooks;
@@ -158,6 +159,106 @@ fn placed_case(ctx: &mut Ctx, place: &'static str, pos: &'static str, s: &str) {
     });
 }
 
+/// More string-bearing positions, checked against a template taken from the implementation's own
+/// output for a benign sentinel string (so no per-position text is hard-coded in the model):
+/// `(tmpl name pre post s)` where printing the sentinel gave `pre ++ "\"QVSENTINEL\"" ++ post`.
+const SENTINEL: &str = "QVSENTINEL";
+const MORE_POSITIONS: [&str; 10] = [
+    "defframeName", "swapFirst", "swapSecond", "captureFrame", "rawCaptureFrame", "setFrequencyFrame",
+    "shiftPhaseFrame", "delaySecondOfTwo", "pragmaExternData", "nbPulseFrame",
+];
+
+fn build_more(pos: &str, s: &str) -> Instruction {
+    let frame = |name: &str, q: u64| FrameIdentifier { name: name.to_string(), qubits: vec![Qubit::Fixed(q)] };
+    let one = || Expression::Number(num_complex::Complex64::new(1.0, 0.0));
+    let wf = || WaveformInvocation { name: "w".to_string(), parameters: Default::default() };
+    let mref = || MemoryReference { name: "ro".to_string(), index: 0 };
+    match pos {
+        "defframeName" => {
+            let mut attributes = FrameAttributes::new();
+            attributes.insert("DIRECTION".to_string(), AttributeValue::String("tx".to_string()));
+            Instruction::FrameDefinition(FrameDefinition { identifier: frame(s, 0), attributes })
+        }
+        "swapFirst" => Instruction::SwapPhases(SwapPhases { frame_1: frame(s, 0), frame_2: frame("b", 1) }),
+        "swapSecond" => Instruction::SwapPhases(SwapPhases { frame_1: frame("a", 0), frame_2: frame(s, 1) }),
+        "captureFrame" => Instruction::Capture(Capture { blocking: true, frame: frame(s, 0), memory_reference: mref(), waveform: wf() }),
+        "rawCaptureFrame" => Instruction::RawCapture(RawCapture { blocking: false, frame: frame(s, 0), duration: one(), memory_reference: mref() }),
+        "setFrequencyFrame" => Instruction::SetFrequency(SetFrequency { frame: frame(s, 0), frequency: one() }),
+        "shiftPhaseFrame" => Instruction::ShiftPhase(ShiftPhase { frame: frame(s, 0), phase: one() }),
+        "delaySecondOfTwo" => Instruction::Delay(Delay { duration: one(), frame_names: vec!["a".to_string(), s.to_string()], qubits: vec![Qubit::Fixed(0)] }),
+        "pragmaExternData" => Instruction::Pragma(Pragma::new(
+            "EXTERN".to_string(),
+            vec![PragmaArgument::Identifier("foo".to_string())],
+            Some(s.to_string()),
+        )),
+        "nbPulseFrame" => Instruction::Pulse(Pulse { blocking: false, frame: frame(s, 0), waveform: wf() }),
+        _ => unreachable!(),
+    }
+}
+
+fn extract_more(pos: &str, i: &Instruction) -> Option<String> {
+    match (pos, i) {
+        ("defframeName", Instruction::FrameDefinition(d)) => Some(d.identifier.name.clone()),
+        ("swapFirst", Instruction::SwapPhases(x)) => Some(x.frame_1.name.clone()),
+        ("swapSecond", Instruction::SwapPhases(x)) => Some(x.frame_2.name.clone()),
+        ("captureFrame", Instruction::Capture(x)) => Some(x.frame.name.clone()),
+        ("rawCaptureFrame", Instruction::RawCapture(x)) => Some(x.frame.name.clone()),
+        ("setFrequencyFrame", Instruction::SetFrequency(x)) => Some(x.frame.name.clone()),
+        ("shiftPhaseFrame", Instruction::ShiftPhase(x)) => Some(x.frame.name.clone()),
+        ("delaySecondOfTwo", Instruction::Delay(x)) if x.frame_names.len() == 2 => Some(x.frame_names[1].clone()),
+        ("pragmaExternData", Instruction::Pragma(x)) => x.data.clone(),
+        ("nbPulseFrame", Instruction::Pulse(x)) => Some(x.frame.name.clone()),
+        _ => None,
+    }
+}
+
+/// `place` = "top" or one of PLACES; `pos` from MORE_POSITIONS. Both printing routes are used.
+fn tmpl_case(ctx: &mut Ctx, place: &'static str, pos: &'static str, s: &str) {
+    let wrap_it = |i: Instruction| if place == "top" { i } else { wrap(place, i) };
+    // body-incapable combinations
+    if place != "top" && (pos == "defframeName" || pos == "pragmaExternData") {
+        return;
+    }
+    let probe = match wrap_it(build_more(pos, SENTINEL)).to_quil() {
+        Ok(t) => t,
+        Err(_) => return,
+    };
+    let needle = format!("\"{SENTINEL}\"");
+    let Some(at) = probe.find(&needle) else { return };
+    let (pre, post) = (probe[..at].to_string(), probe[at + needle.len()..].to_string());
+    let s = s.to_string();
+    ctx.case(tagged("tmpl", vec![atom(format!("{place}-{pos}")), st(pre), st(post), st(s.clone())]), || {
+        let instruction = wrap_it(build_more(pos, &s));
+        let text = match instruction.to_quil() {
+            Ok(t) => t,
+            Err(_) => return tagged("printerr", vec![]),
+        };
+        // the debug printing route must agree when nothing needs the fallback
+        if instruction.to_quil_or_debug() != text {
+            return tagged("routes-differ", vec![st(text), st(instruction.to_quil_or_debug())]);
+        }
+        let back = match Program::from_str(&text) {
+            Ok(p) => {
+                // PRAGMA EXTERN is routed to the extern map; to_instructions lists it again
+                let is = p.to_instructions();
+                let inner = if place == "top" { is.first().cloned() } else { is.first().and_then(|o| unwrap_body(place, o)) };
+                match (is.len(), inner) {
+                    (1, Some(inner)) => match extract_more(pos, &inner) {
+                        Some(b) => tagged("reparsed", vec![st(b)]),
+                        None => tagged("err", vec![]),
+                    },
+                    _ => tagged("err", vec![]),
+                }
+            }
+            Err(e) => {
+                let _ = (e.to_string(), format!("{e:?}"));
+                tagged("err", vec![])
+            }
+        };
+        tagged("printed", vec![st(text), back])
+    });
+}
+
 fn pos_case(ctx: &mut Ctx, pos: &'static str, s: &str) {
     let s = s.to_string();
     ctx.case(tagged("pos", vec![atom(pos), st(s.clone())]), || {
@@ -227,6 +328,15 @@ fn run(ctx: &mut Ctx) {
             }
         }
     }
+    // 3c. ten more positions, at top level and inside every body kind, templates taken from the
+    //     implementation's own output for a sentinel string
+    for place in ["top", "defcal", "defcalMeasure", "defcircuit"] {
+        for pos in MORE_POSITIONS {
+            for len in 0..=(pos_len - 1) {
+                all_strings(len, &mut |s| tmpl_case(ctx, place, pos, s));
+            }
+        }
+    }
     // 4. random longer strings (Unicode, control characters) in every position and through the lexer
     let mut rng = ctx.rng(7);
     for _ in 0..n_random {
@@ -236,6 +346,7 @@ fn run(ctx: &mut Ctx) {
         if rng.chance(1, 2) {
             placed_case(ctx, *rng.pick(&PLACES), *rng.pick(&BODY_POSITIONS), &s);
         }
+        tmpl_case(ctx, *rng.pick(&["top", "defcal", "defcalMeasure", "defcircuit"]), *rng.pick(&MORE_POSITIONS), &s);
         let t = format!("{}{}", verif_hooks::quoted_string(&s), random_string(&mut rng, 6));
         ctx.case(tagged("lex", vec![st(t.clone())]), || match verif_hooks::unescaped_quoted_string(&t) {
             Some((parsed, rest)) => tagged("ok", vec![st(parsed), st(rest)]),
